@@ -130,6 +130,31 @@ def body_algebra(case, note):
         o = t.get_html_string()
         check(o.startswith(pre) and o.endswith(post), f"{label}: unexpected frame", o)
         check(o[len(pre) : len(o) - len(post)] == sep, f"{label}: result as a child differs from the operands as adjacent children", sep, o)
+    # "+ / += between str, HTML and other objects": the result joined to a child list by the list's own operators
+    def _iadd(x, y):
+        x += y
+        return x
+
+    def _ext(x, y):
+        x.extend(y)
+        return x
+
+    def _kids_iadd(t, y):
+        t.children += y
+        return t
+
+    joins = [
+        ("TagList('x') + result", h.TagList("x") + res, "x", ""),
+        ("TagList('x') += result", _iadd(h.TagList("x"), res), "x", ""),
+        ("TagList('x').extend(result)", _ext(h.TagList("x"), res), "x", ""),
+        ("Tag.extend(result)", _ext(h.Tag("b", "x", _add_ws=False), res), "<b>x", "</b>"),
+        ("tag.children += result", _kids_iadd(h.Tag("b", "x", _add_ws=False), res), "<b>x", "</b>"),
+    ]
+    if type(res) is str:
+        joins.append(("result + TagList('x')", res + h.TagList("x"), "", "x"))
+    for label, obj, pre, post in joins:
+        o = obj.get_html_string()
+        check(o == pre + sep + post, f"{label}: differs from the operands as adjacent children", pre + sep + post, o)
     plain_meta = any(o["t"] == "s" and META & set(o["v"]) for o in ops)
     kinds = {o["t"] for o in ops}
     note(
